@@ -4,6 +4,9 @@ import time
 import numpy as np
 
 from . import catalog as K
+from .C12 import *          # noqa: F401,F403
+from .C13 import *          # noqa: F401,F403
+from .C15 import *          # noqa: F401,F403  (shared scenarios name their oracles there)
 
 
 def check_reduce(name, op):
